@@ -66,6 +66,13 @@ func (l limitWriter) Write(p []byte) (int, error) {
 // wsRun replays one history through the real encoder and decoder of one package.
 func wsRun(c *ctx, shard int, pkg string, ops []wsOp) {
 	in := newWkbIntern()
+	// package configuration read when the encoder is created: the default SRID of ewkb encoders
+	dsrid := 0
+	if pkg == "ewkb" {
+		dsrid = []int{4326, 4326, 0, 3857}[c.rng.Intn(4)]
+		ewkb.DefaultSRID = dsrid
+		defer func() { ewkb.DefaultSRID = 4326 }()
+	}
 	var pipe bytes.Buffer
 	chunk, budget := 0, -1
 	var encW *wkb.Encoder
@@ -155,7 +162,7 @@ func wsRun(c *ctx, shard int, pkg string, ops []wsOp) {
 		}
 		evs = append(evs, e)
 	}
-	c.emitTo(shard, map[string]interface{}{"k": "ws", "op": "reset", "pkg": pkg, "tab": in.tab()})
+	c.emitTo(shard, map[string]interface{}{"k": "ws", "op": "reset", "pkg": pkg, "dsrid": dsrid, "tab": in.tab()})
 	for _, e := range evs {
 		e["nt"] = 1
 		c.emitTo(shard, e)
